@@ -241,6 +241,14 @@ def standard_correspondence(ctx, r, per_proto=2, focus=()):
     for t in E.supported:
         d = E.dec(t['name'])
         n = per_proto * (5 if t['name'] in focus else 1)
+        if (t.get('repeat_lead_in') or t.get('repeat_lead_out')) and list(d._repeat_lead_in) == t.get('repeat_lead_in') and list(d._repeat_lead_out) == t.get('repeat_lead_out'):
+            # `_build_repeat_packet`: the ditto frame built from the class tables
+            try:
+                res = d.__class__._build_repeat_packet(2)
+                rr = 'ok ' + ' '.join(map(str, res[0])) if len(res) == 2 and res[0] == res[1] else 'shape ' + repr(res)[:80]
+            except Exception as e:
+                rr = 'err ' + type(e).__name__
+            E.add('buildrep %s' % t['name'], rr)
         for k in range(n):
             p = E.protos.sample_params(d, r)
             try:
